@@ -24,6 +24,43 @@ CHECKS["C09"] = dict(
     text="Exhaustive at the border: every quarter-pixel lattice point from two pixels outside to two pixels inside each border and corner is replayed, measured from the nearest border, on synthetic grids (zero, negative and positive origin, both corner conventions, tile widths 1..256) and on NetherlandsRDNewQuad / WebMercatorQuad / NZTM2000Quad; the observed outcome (snapped / empty / OutsideGridError panic / error of InsertPoint) must equal the specified one.",
     note="Trusted: TLC; float inputs are checked to convert to the intended 1e-10 integer (else skipped and counted); 'inside implies snapped' is asserted only on grids that divide evenly.")
 
+SNAPNOTE = 'Trusted: TLC; exact projection of the synthetic dyadic grids onto the lattice (asserted per record); the TLA+ oracle Grid!Route (cross-checked against brute force in C02). Bounded: windows of 2-10 pixels, rings up to 14-32 vertices, up to 3 tile matrices.'
+CHECKS["C01"] = dict(
+    category="model_checking", design_ref="DESIGN.md §7 C01",
+    technique="trace validation: real SnapPolygon calls on lattice polygons recorded and judged by TLC against SnapTrace.tla (ValidPolygon antecedent and NoCrossing over all returned edge pairs, exact integer orientation tests)",
+    text="Every returned edge pair of every tile matrix of thousands (quick) to >10^5 (thorough) real calls on valid, tie-rich polygons is tested for a proper crossing by TLC; validity of the input is itself a TLA+ predicate. A failing record is re-executed against the current code before it is reported.",
+    note=SNAPNOTE)
+CHECKS["C04"] = dict(
+    category="model_checking", design_ref="DESIGN.md §7 C04",
+    technique="trace validation against SnapTrace.tla: vertices are centres of input-vertex pixels, edge sample points within half a pixel of the input boundary (exact closed-box clip), coverage equivalence at all pixel centres/corners farther than one pixel from the boundary",
+    text="The three clauses of the property are three TLC invariants evaluated on every recorded call at every requested level; sample locations cover the whole window plus two pixels.",
+    note=SNAPNOTE + " Edge clause sampled at end points and mid points of output edges.")
+CHECKS["C05"] = dict(
+    category="model_checking", design_ref="DESIGN.md §7 C05",
+    technique="trace validation against SnapTrace.tla: ring structure/orientation/collapse-policy invariant on every record, and the keep/no-keep relation between the two runs of each input (TLC decides which records pair up)",
+    text="Arbitrary (mostly invalid) vertex sequences and valid polygons are each snapped with keep-points-and-lines off and on and reverse toggled; TLC checks shell-first, orientation by sign of area (flipped under reverse), no repeated vertex, minimum size, no empty list, keys, and that the keep run equals the no-keep run followed by 1-2-vertex rings.",
+    note=SNAPNOTE + " Real-grid float effects (finding F4) are checked by the real-grid part of the check.")
+CHECKS["C06"] = dict(
+    category="model_checking", design_ref="DESIGN.md §7 C06",
+    technique="trace validation against SnapTrace.tla (a panic is a record with out # ok, i.e. no enabled behaviour; time bound as invariant) on adversarially repetitive vertex sequences",
+    text="Thousands to 10^5 arbitrary in-grid vertex sequences from small point pools (repeated vertices, spikes, zig-zags, rings of 0-2 points, several rings), every flag combination and level set, each call under recover and timed.",
+    note=SNAPNOTE + " The time bound is a loose cubic (no hang), wall clock measured by the driver.")
+CHECKS["C07"] = dict(
+    category="model_checking", design_ref="DESIGN.md §7 C07",
+    technique="trace validation against SnapTrace.tla: relational invariants over the records of one input (repeated call, second process, reversed rings, reverse flag); input equality decided by TLC",
+    text="Each input is snapped twice in-process and once in a separate process, with each ring direction changed and with the reverse flag toggled; TLC demands identical results, resp. ring-wise (cyclically) reversed results.",
+    note=SNAPNOTE)
+CHECKS["C08"] = dict(
+    category="model_checking", design_ref="DESIGN.md §7 C08",
+    technique="trace validation against SnapTrace.tla: every non-empty subset of the tile matrices of a round grid requested for the same input; per-tile-matrix equality and key containment as invariants",
+    text="For every input all non-empty subsets of its 2-3 tile matrices are requested in separate calls; TLC requires the same presence and geometry per tile matrix in all of them and no key outside the request.",
+    note=SNAPNOTE)
+CHECKS["C18"] = dict(
+    category="model_checking", design_ref="DESIGN.md §7 C18",
+    technique="trace validation against SnapTrace.tla: TLC routes the boundary itself, evaluates the at-most-twice antecedent, and checks edge-is-run, holes-in-shell and signed-area equality on the recorded result",
+    text="Collapse-prone valid polygons (slivers, combs, necks, frames, serpentines); vacuity is guarded: the evidence counts (record, level) pairs where the antecedent holds and some centre is visited twice, and the check is broken below a floor.",
+    note=SNAPNOTE)
+
 NOT_YET = {}
 
 ALL = ["C%02d" % i for i in range(1, 19)]
